@@ -23,6 +23,7 @@ import Driver.TensorCmd
 import Driver.CQCmd
 import Driver.DzCmd
 import Driver.CircuitBoxCmd
+import Driver.SpidersCmd
 
 def handlers : List (String → List String → Option String) :=
   [ DV.CoreCmd.handle
@@ -42,6 +43,7 @@ def handlers : List (String → List String → Option String) :=
   , DV.CQCmd.handle
   , DV.DzCmd.handle
   , DV.CircuitBoxCmd.handle
+  , DV.SpidersCmd.handle
   ]
 
 def handle (line : String) : String :=
